@@ -7,7 +7,7 @@ import re as _re
 import re._parser as _sp
 
 from ..absint import new_interp, Interp, HList, HDict, HInst, HGen, NONE, const, is_const, fmt, mk_not, mk_cmp, mk_cond
-from ..astutil import unparse, dotted, walk_no_nested_defs
+from ..astutil import unparse, dotted, xdotted, walk_no_nested_defs
 from ..berp import grammar
 from ..names import N
 from ..common import AnalysisError, Report
@@ -216,7 +216,7 @@ def _pattern_safe(I, t, tree) -> tuple[bool, str]:
             if fn[0] == "lambda":
                 try:
                     lam = ast.parse(fn[1], mode="eval").body
-                    ok = isinstance(lam, ast.Lambda) and isinstance(lam.body, ast.Call) and dotted(lam.body.func) == "re.escape" \
+                    ok = isinstance(lam, ast.Lambda) and isinstance(lam.body, ast.Call) and xdotted(lam.body.func, I.closures[fn[3]][0].module if len(fn) > 3 and fn[3] in I.closures else None) == "re.escape" \
                         and len(lam.body.args) == 1 and isinstance(lam.body.args[0], ast.Name) and lam.body.args[0].id == lam.args.args[0].arg
                 except SyntaxError:
                     ok = False
@@ -323,13 +323,13 @@ def rule_partial(rep: Report, rid="C01.partial") -> None:
         if fi.module.name == "gherkin.inout" or fi.module.name.startswith("scripts"):
             continue
         for n in walk_no_nested_defs(fi.node):
-            if isinstance(n, ast.Call) and dotted(n.func) in RE_FUNCS:
+            if isinstance(n, ast.Call) and xdotted(n.func, fi.module) in RE_FUNCS:
                 ast_sites.add((fi.file, n.lineno))
     for m in f.modules.values():     # class-level / module-level compiled patterns
         if m.name == "gherkin.inout":
             continue
         for name, val in m.globals.items():
-            if isinstance(val, ast.Call) and dotted(val.func) == "re.compile":
+            if isinstance(val, ast.Call) and xdotted(val.func, m) == "re.compile":
                 pat = val.args[0] if val.args else None
                 ok = isinstance(pat, ast.Constant) and isinstance(pat.value, str)
                 if ok:
@@ -342,7 +342,7 @@ def rule_partial(rep: Report, rid="C01.partial") -> None:
                        function=m.name, expected="constant pattern", found=unparse(pat) if pat is not None else None)
         for c in m.classes.values():
             for name, val in c.class_attrs.items():
-                if isinstance(val, ast.Call) and dotted(val.func) == "re.compile":
+                if isinstance(val, ast.Call) and xdotted(val.func, m) == "re.compile":
                     pat = val.args[0] if val.args else None
                     ok = isinstance(pat, ast.Constant) and isinstance(pat.value, str)
                     if ok:
@@ -386,7 +386,7 @@ def rule_partial(rep: Report, rid="C01.partial") -> None:
                 meth = n[1].rsplit(".", 1)[1]
                 for fn in f.all_functions():
                     if fn.node.lineno <= (n[3] or 0) <= (fn.node.end_lineno or 0) and any(
-                            isinstance(x, ast.Call) and x.lineno == n[3] and (dotted(x.func) == n[1] or (isinstance(x.func, ast.Attribute) and x.func.attr == meth))
+                            isinstance(x, ast.Call) and x.lineno == n[3] and (xdotted(x.func, fn.module) == n[1] or (isinstance(x.func, ast.Attribute) and x.func.attr == meth))
                             for x in walk_no_nested_defs(fn.node)):
                         file = (fn.file, fn.qualname)
                         break
@@ -570,7 +570,7 @@ def rule_partial(rep: Report, rid="C01.partial") -> None:
                     ok, why = True, "grammar: DocString has at least one #DocStringSeparator"
                 if not ok and base[0] == "ref" and isinstance(I.obj(base), HList):
                     sg = nf.list_content(I, base, tree)
-                    if len(sg) == 1 and sg[0][0] == "loop" and br.canon(I.loops[sg[0][1]].get("iter", ("x",))) == ("items", ("param", "node"), "TableRow") \
+                    if len(sg) == 1 and sg[0][0] == "loop" and br.canon(I.loops[sg[0][1]].get("iter", ("x",))) == ("items", br.bnf().node, "TableRow") \
                             and justified[("rows0", "DataTable")]():
                         ok, why = True, "grammar: a table node holds at least one #TableRow"
                 if not ok and base[0] == "ref" and isinstance(I.obj(base), HList) and any(s[0] == "e" for s in I.obj(base).segs):
